@@ -35,7 +35,7 @@ ASSUMPTIONS = ['which operators are streaming is taken from the property text vi
                'two rows of look-ahead are legitimate (addfieldusingcontext, selectusingcontext, look overflow probe)']
 KS = [0, 1, 2, 5, 17]
 SHORT, LONG = 100, 10000
-REQUIRED = ['dbextractor-judged', 'construction-over-table-objects', 'extractor-over-compressed-source', 'lazyarg-judged', 'construction-judged', 'prefix-judged', 'extractor-judged', 'composition-depth>=3', 'vis-judged', 'header-readers-judged']
+REQUIRED = ['prefix:streamed-side-with-long-runs-of-one-key', 'dbextractor-judged', 'construction-over-table-objects', 'extractor-over-compressed-source', 'lazyarg-judged', 'construction-judged', 'prefix-judged', 'extractor-judged', 'composition-depth>=3', 'vis-judged', 'header-readers-judged']
 
 _files = {}
 
@@ -47,12 +47,20 @@ def _rowfn(i):
 HDR = ('f0', 'f1', 'f2')
 
 
+def _rowfn_runs(i):
+    # the key column (f0) holds long runs of one value: a probe table clustered on its foreign key
+    return (1 + (i // 4000), 'v%d' % (i % 7), str(i % 3))
+
+
+ROWFN = [_rowfn]
+
+
 def _src(n):
-    return probes.CountingSource(header=HDR, nrows=n, rowfn=_rowfn)
+    return probes.CountingSource(header=HDR, nrows=n, rowfn=ROWFN[0])
 
 
 def _prefix(m):
-    return [list(HDR)] + [list(_rowfn(i)) for i in range(m)]
+    return [list(HDR)] + [list(ROWFN[0](i)) for i in range(m)]
 
 
 class CountingRaw(io.FileIO):
@@ -302,6 +310,10 @@ def cases(ctx):
         if e.stream is not None and e.kind in ('view', 'items'):
             for k in KS:
                 yield {'clause': 'prefix', 'op': e.name, 'k': k}
+            if e.name.startswith('hash'):
+                # the streamed side of a hash join is probed row by row, however its keys are clustered
+                for k in (1, 5):
+                    yield {'clause': 'prefix', 'op': e.name, 'k': k, 'runs': True}
     for name in EXTRACTORS:
         yield {'clause': 'extractor', 'op': name, 'k': 0}
         for k in (1, 5, 17):
@@ -390,6 +402,13 @@ def _judge_construction(case, ctx):
 
 
 def _judge_prefix(case, ctx, build, arity, stream, lookahead, e):
+    if case.get('runs'):
+        ROWFN[0] = _rowfn_runs
+        ctx.seen('prefix:streamed-side-with-long-runs-of-one-key')
+        try:
+            return _judge_prefix(dict((k_, v_) for k_, v_ in case.items() if k_ != 'runs'), ctx, build, arity, stream, lookahead, e)
+        finally:
+            ROWFN[0] = _rowfn
     k = case['k']
     # minimal prefix m(k): least m such that the operator on a plain m-row list already yields k data rows
     def second():
